@@ -543,7 +543,7 @@ theorem gate_invariant (pre : List Cmd) :
     obtain ⟨ih1, ih2, ih3⟩ := ih
     have mono := authSucceededIn_mono true r x
     cases x with
-    | ehlo => exact ⟨fun h => mono (ih1 h), ih2, by simp [connStep]⟩
+    | ehlo => exact ⟨fun h => mono (ih1 h), ih2, ih3⟩
     | noop => exact ⟨fun h => mono (ih1 h), ih2, ih3⟩
     | rset => exact ⟨fun h => mono (ih1 h), by simp [connStep], ih3⟩
     | mail =>
@@ -552,10 +552,13 @@ theorem gate_invariant (pre : List Cmd) :
       · by_cases hu : (connAfter true r).authUser = []
         · simp only [hh, hu]
           exact ⟨fun h => mono (ih1 (by simpa using h)), by simpa using ih2, fun h => absurd hu (by simpa using h)⟩
-        · simp only [hh, hu]
-          refine ⟨fun h => mono (ih1 (by simpa using h)), fun _ => ?_, fun _ => ?_⟩
-          · simpa using ih3 hu
-          · simpa using ih3 hu
+        · by_cases hr : (connAfter true r).rcpts > 0
+          · simp only [hh, hu, hr]
+            exact ⟨fun h => mono (ih1 (by simpa using h)), by simpa using ih2, by simpa using ih3⟩
+          · simp only [hh, hu, hr]
+            refine ⟨fun h => mono (ih1 (by simpa using h)), fun _ => ?_, fun _ => ?_⟩
+            · simpa using ih3 hu
+            · simpa using ih3 hu
       · simp only [hh]
         exact ⟨fun h => mono (ih1 (by simpa using h)), by simpa using ih2, by simpa using ih3⟩
     | rcpt =>
@@ -680,8 +683,10 @@ example : hashable .bcrypt (List.replicate 73 1) = false := by decide
 example : connRun true {} [.ehlo, .mail, .auth .fail, .mail, .auth (.ok [1]), .mail, .rcpt, .data] =
     [250, 502, 454, 502, 235, 250, 250, 250] := by decide
 example : isTxCmd .mail = true ∧ (connStep true (connAfter true [.ehlo, .auth (.ok [1])]) .mail).2 < 400 := by decide
--- a second EHLO replaces the session: the identity is gone and MAIL is refused again
-example : connRun true {} [.ehlo, .auth (.ok [1]), .ehlo, .mail, .auth (.ok [1])] = [250, 235, 250, 502, 503] := by decide
+-- a second EHLO keeps the session (fix e064dc2): the identity stays, a second AUTH is refused;
+-- MAIL inside an open transaction (a recipient was accepted) is refused (fix 621600d)
+example : connRun true {} [.ehlo, .auth (.ok [1]), .ehlo, .mail, .auth (.ok [1]), .rcpt, .mail, .rset, .mail] =
+    [250, 235, 250, 250, 503, 250, 503, 250, 250] := by decide
 
 end Examples
 
